@@ -135,11 +135,13 @@ def scenario(rng, spec):
         async def main():
             tm = AsyncTasks()
             loc = GeckoAsyncLocator(tm, handler, **kw)
+            before = set(loop.tasks)
             await loc.discover()
             tret = loop.time()
             await asyncio.sleep(0)
             await asyncio.sleep(0)
-            alive = [t for t in loop.live_tasks("LOC:")]
+            # every task the run started, whatever its name (a helper wrapped in an anonymous task is a helper too)
+            alive = [t for t in loop.tasks if t not in before and not t.done() and t is not asyncio.current_task()]
             closed = all(t.closed for t in loop.transports)
             spas = []
             for d in (loc.spas or []):
